@@ -506,12 +506,19 @@ def _max_paths(cfg, head, marks, region, stop_at_header):
     return r if r is not None else 0
 
 
+INIT_FIELDS = {
+    'C02': {'max_padding_frac', 'normal_sent_packets', 'padding_sent_packets', 'padding_sent', 'normal_sent', 'current_state'},
+    'C03': {'max_blocking_frac', 'current_time', 'framework_start', 'blocking_started', 'blocking_active', 'blocking_duration',
+            'machine_start', 'allowed_blocked_microsec', 'current_state'},
+}
+
+
 def rule_initial_state(ctx, rep, pid):
     from .rules_fw import check_initial_state
     rep.rule(pid + '.R7', 'initial-state table of Framework::new: the two fraction parameters land in the same-named fields, all clocks start at '
              'current_time, counters and durations start at zero, blocking inactive, no signal pending; MachineRuntime starts in state 0 with '
              'zero counters and allowed_blocked_microsec from the machine')
-    check_initial_state(ctx, rep, pid + '.R7')
+    check_initial_state(ctx, rep, pid + '.R7', only=INIT_FIELDS.get(pid))
 
 
 def rule_dispatch_discipline(ctx, rep, rid, arms_of_interest):
